@@ -625,7 +625,9 @@ func (c *VCtx) loopHead(fr *Frame, li *loopInfo, st *State, phis []*ssa.Phi) {
 				cur := c.heap(st, h, mods[h])
 				_, vs := arrParts(mods[h])
 				for _, b := range bs {
-					cur = Store(cur, b, c.fresh("hv", vs))
+					nv := c.fresh("hv", vs)
+					c.wfValue(st, nv)
+					cur = Store(cur, b, nv)
 				}
 				st.heaps[h] = c.name("h", cur)
 				continue
